@@ -1,6 +1,99 @@
-import DtnVerif.Model.TcpclEp
+/-
+  C04 — TCPCL endpoints only emit RFC 9174-legal message sequences.
+  `Legal` (Model/TcpclSpec) is the sequence automaton written from RFC 9174: contact header, then
+  SESS_INIT, then only XFER_SEGMENT/XFER_ACK/XFER_REFUSE/KEEPALIVE/MSG_REJECT, at most one SESS_TERM
+  and no START after it; segments of a transfer contiguous, START carries the total length, END only
+  on the last, transfer ids strictly increasing.
+-/
+import DtnVerif.Lemmas.TcpclSys
 namespace DtnVerif
 namespace Tcpcl
-theorem C04_placeholder : True := trivial
+
+theorem C04_facts :
+    Facts.enum_tcpcl_SessionTerm_Flag_REPLY = 1
+    ∧ Facts.enum_tcpcl_TransferSegment_Flag_END = (flagEnd : Int)
+    ∧ Facts.enum_tcpcl_TransferSegment_Flag_START = (flagStart : Int)
+    ∧ Facts.enum_tcpcl_SessionTerm_Reason_IDLE_TIMEOUT = 1
+    ∧ Facts.enum_tcpcl_RejectMsg_Reason_UNEXPECTED = (rejUnexpected : Int)
+    ∧ (Facts.binds.filter (fun b => b.1 == "MessageHead" && b.2.2.1 == "msg_id")).map (fun b => b.2.2.2)
+        = [(tXferSegment : Int), tXferAck, tXferRefuse, tKeepalive, tSessTerm, tMsgReject, tSessInit] := by
+  decide
+
+/-- **One endpoint, assume–guarantee.** Under any schedule, if the sequence the peer has sent is legal,
+    contains no XFER_REFUSE and announces a positive segment MRU, then the sequence this endpoint has
+    emitted is legal. -/
+theorem C04_legal (cfg : Cfg) (evs : List Ev) (h1 : 0 < cfg.segInit) (h2 : cfg.privExt = false)
+    (hsend : ∀ d, Ev.send d ∈ evs → d.length < 2 ^ 64)
+    (hleg : Legal (runEp (started cfg) evs).processed)
+    (hok : ∀ m ∈ (runEp (started cfg) evs).processed, okMsg m) :
+    Legal (runEp (started cfg) evs).emitted := by
+  obtain ⟨P, hP⟩ := txInv_run evs _ {} (txInv_started cfg h1 h2) (timerInv_started cfg) hsend hleg hok
+  have : legalRun {} (runEp (started cfg) evs).emitted = some _ := hP.L
+  unfold Legal; rw [this]; rfl
+
+/-- **Two endpoints, unconditional in the peer.** For every schedule of the two-endpoint system both
+    directions of the connection carry legal sequences (the peer assumptions of `C04_legal` are
+    discharged mutually, by induction over the schedule). -/
+theorem C04_legal_sys (cfgA cfgB : Cfg) (sch : List SysEv)
+    (a1 : 0 < cfgA.segInit) (a2 : cfgA.privExt = false) (a3 : 0 < cfgA.segMru)
+    (b1 : 0 < cfgB.segInit) (b2 : cfgB.privExt = false) (b3 : 0 < cfgB.segMru)
+    (hwf : ∀ pre, pre <+: sch → SysWF (runSys (initSys cfgA cfgB) pre))
+    (hs : ∀ ev ∈ sch, ev.sendOK) :
+    Legal (runSys (initSys cfgA cfgB) sch).a.emitted ∧ Legal (runSys (initSys cfgA cfgB) sch).b.emitted := by
+  have hi := sysInv_run sch _ (sysInv_init cfgA cfgB a1 a2 a3 b1 b2 b3) hwf hs
+  exact ⟨emitted_legal hi.ia, emitted_legal hi.ib⟩
+
+/-- **The statement is about the wire.** The octets written to the socket are a prefix of the
+    encoding of the emitted sequence (both buffers and every partial write accounted for), and what the
+    peer's framing layer hands over is a prefix of that sequence. -/
+theorem C04_wire_sys (cfgA cfgB : Cfg) (sch : List SysEv)
+    (a1 : 0 < cfgA.segInit) (a2 : cfgA.privExt = false) (a3 : 0 < cfgA.segMru)
+    (b1 : 0 < cfgB.segInit) (b2 : cfgB.privExt = false) (b3 : 0 < cfgB.segMru)
+    (hwf : ∀ pre, pre <+: sch → SysWF (runSys (initSys cfgA cfgB) pre))
+    (hs : ∀ ev ∈ sch, ev.sendOK) :
+    let s := runSys (initSys cfgA cfgB) sch
+    s.a.accepted <+: encodeAll s.a.emitted ∧ s.b.accepted <+: encodeAll s.b.emitted
+      ∧ s.b.processed <+: s.a.emitted ∧ s.a.processed <+: s.b.emitted := by
+  intro s
+  have hi : SysInv s := sysInv_run sch _ (sysInv_init cfgA cfgB a1 a2 a3 b1 b2 b3) hwf hs
+  have hw : SysWF s := hwf sch (List.prefix_refl _)
+  have pa : encodeAll s.a.emitted = _ := hi.ia.pump
+  have pb : encodeAll s.b.emitted = _ := hi.ib.pump
+  obtain ⟨t1, t2⟩ := transport s hi hw
+  refine ⟨?_, ?_, t1, t2⟩
+  · rw [pa, List.append_assoc]; exact List.prefix_append _ _
+  · rw [pb, List.append_assoc]; exact List.prefix_append _ _
+
+/-- The implementation never emits XFER_REFUSE and its SESS_INIT announces the configured MRU. -/
+theorem C04_emit_shape (cfg : Cfg) (evs : List Ev) :
+    ∀ m ∈ (runEp { cfg := cfg } evs).emitted, emitOK cfg m := by
+  have h := emitInv_run evs _ (emitInv_init cfg)
+  have hc : (runEp { cfg := cfg } evs).cfg = cfg := by
+    induction evs generalizing cfg with
+    | nil => rfl
+    | cons ev evs ih =>
+      have : ∀ e : Ep, (runEp e (ev :: evs)).cfg = e.cfg := by
+        intro e
+        rw [runEp_cons]
+        have gen : ∀ (l : List Ev) (e' : Ep), (runEp e' l).cfg = e'.cfg := by
+          intro l
+          induction l with
+          | nil => intro e'; rfl
+          | cons x xs ihx => intro e'; rw [runEp_cons, ihx, cfg_step]
+        rw [gen, cfg_step]
+      exact this _
+  intro m hm
+  have := h m hm
+  rw [hc] at this
+  exact this
+
+/-- non-vacuity: the emitted sequences of the concrete run of `Props/C01` are non-trivial and legal -/
+example : Legal [.contact 0, .sessInit 0 100 sizeMax [] [],
+    .xferSegment 2 1 (encExtItem ⟨0, 1, u64 3⟩) [1, 2], .xferSegment 1 1 [] [3], .keepalive,
+    .sessTerm 0 0] := by decide +kernel
+example : ¬ Legal [.contact 0, .sessInit 0 100 sizeMax [] [],
+    .xferSegment 2 1 (encExtItem ⟨0, 1, u64 3⟩) [1, 2], .xferSegment 3 2 (encExtItem ⟨0, 1, u64 1⟩) [9]] := by
+  decide +kernel
+
 end Tcpcl
 end DtnVerif
